@@ -49,6 +49,21 @@ DONE = {
  "C16": ("runtime uniqueness oracle under a turn-based deterministic scheduler driven by sync-point hooks (interleavings enumerated), free-running stress with injected delays, sequential wrap runs",
          "Interleavings of 2x1, 2x2, 3x1 (+3x2, 4x1 thorough) allocations enumerated depth-first over the hook points from counter positions at and before the wrap; 2..16-thread stress with seeded delays; 2..5 sequential wraps; 16-thread make_reference. Evidence reports the distinct step orders actually realised.",
          "Needs the verif-hooks sync points and lock probe in PidAllocator::allocate; uniqueness only within 2^32 serial increments.", "6/C16"),
+ "C06": ("history checker at the client boundary: a scripted peer sends uniquely identified messages in every wire form over a real socket, the values returned by Connection::receive_message are compared with the sent sequence",
+         "240 (quick) / 9000 (thorough) peer histories under three negotiated flag sets: every control kind, payloads to 70 kB, distribution headers from the atom-cache sender model, 1..5 fragments (also interleaved sequences), ticks and 9 kinds of junk frames at random positions, random TCP slicing. Exactly-once, in-order, intact delivery; junk costs at most one error; no panic.",
+         "Scripted peer and fake EPMD are independent of edp_client (own layouts, own MD5); needs the EPMD port override hook.", "6/C06"),
+ "C07": ("frame-level monitor at a scripted peer with an independent protocol reader, plus exactly-once / per-caller-order / no-interleaving checker for concurrent senders under seeded yields at the partial-write hooks",
+         "Every operation x argument class x both framing modes against a directly driven Connection (one frame, right control tuple, payload, node-local ids verbatim, nothing before the handshake); 2..64 tasks x 5..40 operations through one Node on a current-thread runtime with injected yields between the partial writes and on a multi-thread runtime.",
+         "Unique ids travel in payloads / from-pids; needs the EPMD override and the conn:send yield points.", "6/C07"),
+ "C17": ("history checker over concurrent remote calls against a scripted rex peer (permuted / late / duplicated / missing / misaddressed replies, faults) with a quiescence invariant on the outstanding-call table read through a hook",
+         "36+18 (quick) / 3000+1500 (thorough) scenarios with 1..64 concurrent callers, 9 reply scripts, a call to an unconnected node and a call whose request cannot be sent; seeded yields at the insert/send/remove and lookup/remove hooks. Own reply only, every call ends, table empty at quiescence.",
+         "Needs pending_rpc_count() and the node:rpc / node:route yield points; real-time call timeouts (overruns = inconclusive).", "6/C17"),
+ "C18": ("offline checkers over a recorded event log: per-sender FIFO exactly-once delivery, exactly-once exit/monitor notices, name lifecycle, exact per-name linearizability search, one reply per behaviour call",
+         "60 (quick) / 8000 (thorough) random operation histories (3..8 processes, 2..6 tasks, 1..3 contended names) on a multi-thread runtime and on a current-thread runtime with yields at the exit-propagation hooks; histories recorded at the client boundary with one logical clock.",
+         "Links/monitors are compared as of a quiescent barrier before the failure; per-name histories are cut at quiescent instants and checked exactly (<= 22 overlapping operations).", "6/C18"),
+ "C19": ("scripted inbound histories over a real connection with a probe-after-fault oracle and connection-membership sampling",
+         "45 (quick) / 3000 (thorough) histories: routed sends / exits / monitor exits / rpc replies must reach exactly their target with fields intact; after each of 11 survivable faults a probe must be delivered and the connection still be registered; close / EOF inside a frame / over-long length must deregister within 5 s; 12.5 s quiet periods followed by a tick.",
+         "Verdict by probe delivery, never by timing; the node's 10 s read timeout is fixed in the library, so the quiet scenario needs real time.", "6/C19"),
  "C20": ("runtime round-trip / no-fabrication monitor for the Elixir wrappers, i128 reference model for ranges (debug and release builds), model-based check of proplist/map helpers and builders",
          "Every wrapper through term and wire with extreme field values, mutated terms must be rejected or accepted without fabricating a field; range len/contains/iteration/size_hint against an i128 reference over a bounds x steps grid in both build profiles; proplist<->map conversions on well-formed proplists.",
          "Judgement calls listed in DESIGN.md 7a (Elixir. prefix normalisation, nil as absent optional).", "6/C20"),
